@@ -177,8 +177,9 @@ func (t *TupleType) At(i int) px.Value {
 		if i < len(t.types) {
 			return t.types[i]
 		}
-		if int64(i) < t.givenOrActualSize.max {
-			return t.types[len(t.types)-1]
+		// the last type stands for the further elements; a Tuple without types (the default Tuple) has none
+		if n := len(t.types); n > 0 && int64(i) < t.givenOrActualSize.max {
+			return t.types[n-1]
 		}
 	}
 	return undef
